@@ -54,3 +54,68 @@ Theorem C04_add_typedef_is_decl : forall (P: Type) (s s': pstate P) n c,
   add_typedef_name P n c s = Ok (tt, s') -> run_events [EDecl n true] (scopes P s) = Some (scopes P s').
 Proof. exact add_typedef_is_decl. Qed.
 Print Assumptions C04_add_typedef_is_decl.
+
+(* ---- third phase: the classification is what the parser's decisions use (proofs/TypeDispatch.v) ---- *)
+From PV Require Import AstDefs AstSpec AstImpl ParserDecl ParserMain StreamLib TypeDispatch.
+
+(* an identifier item that is delivered now (nothing buffered) becomes a TYPEID token exactly when the scope stack
+   of this moment says its innermost visible declaration is a typedef - for every parser state and stream *)
+Theorem C04_identifier_classified_by_scope : forall (P: Type) (s: pstate P) v p fa r t l,
+  after P s = [] -> raw P s = PTok P K_ID v p fa :: r -> Up P s (t :: l) ->
+  tk t = (if is_type_in (Some v) (scopes P s) then K_TYPEID else K_ID) /\ tv t = v.
+Proof. exact identifier_classified_by_scope. Qed.
+Print Assumptions C04_identifier_classified_by_scope.
+
+(* at the start of a block item the parser goes to p_declaration exactly when the first token can start a
+   declaration; nothing is consumed by the decision *)
+Theorem C04_block_item_dispatch : forall (P: Type) (s: pstate P) t l, Up P s (t :: l) -> kind_eqb (tk t) K_RBRACE = false ->
+  exists s2, Up P s2 (t :: l) /\ Same P s s2 /\ forall f,
+    p_block_item_list P (S f) s =
+    bind P (if kind_in (tk t) tbl_DECL_START then p_declaration P f else bind P (p_statement P f) (fun s0 => ret P (stmt_to_items P s0)))
+           (fun items => bind P (p_block_item_list P f) (fun rest => ret P (items ++ rest))) s2.
+Proof. exact block_item_dispatch. Qed.
+Print Assumptions C04_block_item_dispatch.
+
+(* ... so `T ...` at the start of a block item is a declaration exactly when T currently names a type *)
+Theorem C04_identifier_block_item : forall (P: Type) (s: pstate P) v p fa r t l,
+  after P s = [] -> raw P s = PTok P K_ID v p fa :: r -> Up P s (t :: l) ->
+  exists s2, Up P s2 (t :: l) /\ Same P s s2 /\ forall f,
+    p_block_item_list P (S f) s =
+    bind P (if is_type_in (Some v) (scopes P s) then p_declaration P f else bind P (p_statement P f) (fun s0 => ret P (stmt_to_items P s0)))
+           (fun items => bind P (p_block_item_list P f) (fun rest => ret P (items ++ rest))) s2.
+Proof. exact identifier_block_item. Qed.
+Print Assumptions C04_identifier_block_item.
+
+(* `( x`: the cast, compound-literal and sizeof productions (all through try_paren_type_name) read a type name
+   exactly when x can start a declaration - for an identifier: when it is a TYPEID ... *)
+Theorem C04_paren_reads_type_name : forall (P: Type) (s: pstate P) lp x l, Up P s (lp :: x :: l) -> kind_eqb (tk lp) K_LPAREN = true ->
+  kind_in (tk x) tbl_DECL_START = true ->
+  exists s3, Up P s3 (x :: l) /\ idx P s3 = S (idx P s) /\ forall f,
+    try_paren_type_name P (S f) s =
+    bind P (p_type_name P f) (fun typ => bind P (accept P K_RPAREN) (fun rpn =>
+      match rpn with
+      | None => bind P (reset P (idx P s)) (fun _ => ret P None)
+      | Some _ => ret P (Some (typ, idx P s, lp))
+      end)) s3.
+Proof. exact paren_type. Qed.
+Print Assumptions C04_paren_reads_type_name.
+
+(* ... and otherwise gives up without consuming anything: `(x)(y)` is then a call, `sizeof(x)` an expression operand *)
+Theorem C04_paren_not_a_type_name : forall (P: Type) (s: pstate P) lp x l, Up P s (lp :: x :: l) -> kind_eqb (tk lp) K_LPAREN = true ->
+  kind_in (tk x) tbl_DECL_START = false ->
+  exists s1, (forall f, try_paren_type_name P (S f) s = Ok (None, s1)) /\ Up P s1 (lp :: x :: l) /\
+             idx P s1 = idx P s /\ ticks P s1 = (ticks P s + 1)%N.
+Proof. exact RoundTrip.tptn_not_type_c. Qed.
+Print Assumptions C04_paren_not_a_type_name.
+
+Theorem C04_typeid_starts_declaration : kind_in K_TYPEID tbl_DECL_START = true /\ kind_in K_ID tbl_DECL_START = false.
+Proof. exact typeid_starts_declaration. Qed.
+Print Assumptions C04_typeid_starts_declaration.
+
+(* non-vacuity, computed on the model: `T * x ; }` in a block whose enclosing scope declares T *)
+Theorem C04_typedef_decides_declaration :
+  first_class (p_block_item_list nat 60 (td_state true)) = Some C_Decl /\
+  first_class (p_block_item_list nat 60 (td_state false)) = Some C_BinaryOp /\
+  is_type_in (Some (s2l "T")) (scopes nat (td_state true)) = true /\ is_type_in (Some (s2l "T")) (scopes nat (td_state false)) = false.
+Proof. exact typedef_decides_declaration. Qed.
+Print Assumptions C04_typedef_decides_declaration.
